@@ -43,6 +43,13 @@ def gen_cases(tier, seed):
                 "planted": [], "wt": "int", "mode": "edge"}
         for oo in (None, OPTS[2]):
             cases.append({"kind": "opt", "spec": I.spec_of(base), "mode": "edge", "cons": [], "cov": 1.0, "ignore": [["c", "d"]], "oo": oo, "starts": [], "ends": []})
+    # a hub whose (in-edge, out-edge) pairs are all constrained: the optimum (8) exceeds the number of edges (6)
+    hub_n = ["a", "b", "c", "d", "h", "x", "y"]; hub_e = [("a", "h"), ("b", "h"), ("c", "h"), ("d", "h"), ("h", "x"), ("h", "y")]
+    hub_f = {("a", "h"): 2, ("b", "h"): 2, ("c", "h"): 2, ("d", "h"): 2, ("h", "x"): 4, ("h", "y"): 4}
+    hub_c = [[[u, "h"], ["h", w]] for u in ("a", "b", "c", "d") for w in ("x", "y")]
+    base = {"nodes": hub_n, "edges": hub_e, "flow": dict(hub_f), "planted": [], "wt": "int", "mode": "edge"}
+    for cons in (hub_c, hub_c[:7]):
+        cases.append({"kind": "opt", "spec": I.spec_of(base), "mode": "edge", "cons": cons, "cov": 1.0, "ignore": [], "oo": None, "starts": [], "ends": []})
     for i, (nodes, edges, fl) in enumerate(CORPUS):
         base = {"nodes": nodes, "edges": edges, "flow": fl, "planted": [], "wt": "int", "mode": "edge"}
         for oo in (None, OPTS[2], OPTS[5]):
